@@ -1,6 +1,7 @@
 -- Root of the `FerretVerif` library: models (core-only), regenerated tables, proofs and the property theorems.
 import FerretVerif.Props.C01
 import FerretVerif.Props.C02
+import FerretVerif.Props.C05
 import FerretVerif.Props.C10
 import FerretVerif.Props.C11
 import FerretVerif.Props.C15
